@@ -151,6 +151,21 @@ def _hand() -> dict[str, dict[str, Any]]:
     H["grad_through_concat_reshape"] = {"fn": jax.grad(lambda x: jnp.sum(jnp.concatenate([x, x * 2], 0).reshape(-1)[::2] ** 2)), "sig": X}
     H["grad_through_take_cumsum"] = {"fn": jax.grad(lambda x: jnp.sum(jnp.cumsum(jnp.take(x, jnp.array([2, 0]), axis=1), axis=0) ** 2)), "sig": X}
     H["jvp_through_matmul_softmax"] = {"fn": lambda x: jax.jvp(lambda v: jax.nn.softmax(v @ jnp.ones((4, 4)) * 0.2), (x,), (jnp.ones_like(x),))[1], "sig": X}
+    # static parameters handed over as NumPy / JAX scalars instead of Python numbers: the differentiation
+    # and batching rules of the substitutes must read them exactly as the lowering does
+    acts = {
+        "leaky_relu": lambda v, p: jax.nn.leaky_relu(v, negative_slope=p), "elu": lambda v, p: jax.nn.elu(v, alpha=p), "celu": lambda v, p: jax.nn.celu(v, alpha=p),
+        "clip": lambda v, p: jnp.clip(v, -p, p), "pow": lambda v, p: jnp.abs(v) ** p, "softplus_scaled": lambda v, p: jax.nn.softplus(v * p), "hard_tanh_scaled": lambda v, p: jax.nn.hard_tanh(v) * p,
+        "logsumexp_b": lambda v, p: jax.nn.logsumexp(v, axis=1, b=p), "integer_pow": lambda v, p: lax.integer_pow(v, int(p) + 2),
+    }
+    for an, af in acts.items():
+        for pn, pv in (("np32", np.float32(0.3)), ("np64", np.float64(0.3)), ("jnp32", "jnp"), ("np0d", np.array(0.3, np.float32))):
+            mk = (lambda af, pv: (lambda v: af(v, jnp.float32(0.3) if isinstance(pv, str) else pv)))(af, pv)
+            H[f"param_{an}_{pn}_grad"] = {"fn": jax.grad((lambda mk: lambda x: jnp.sum(mk(x) * jnp.cos(x)))(mk)), "sig": X}
+            if pn in ("np32", "jnp32"):
+                H[f"param_{an}_{pn}_jvp"] = {"fn": (lambda mk: lambda x: jax.jvp(mk, (x,), (jnp.ones_like(x) * 0.5,))[1])(mk), "sig": X}
+            if pn == "np32":  # (a jax.Array as a static parameter is unhashable under vmap: JAX itself refuses it, loudly)
+                H[f"param_{an}_{pn}_vmap"] = {"fn": (lambda mk: lambda x: jax.vmap(lambda r: mk(r[None, :])[0])(x))(mk), "sig": X}
     return H
 
 
